@@ -749,6 +749,15 @@ def fam_krand(tier, rng):
                 ops.append(f"cget {rng.choice(used)}")
         for k in used[-12:]:
             ops.append(f"cget {k}")
+    # capacities and value sizes around 2^16 and beyond (offsets / lengths that only go wrong past 16 bits)
+    for cap in (65535, 65536, 65537, 70000, 200000, 1 << 20):
+        ops.append(f"cnew {cap}")
+        lens = [65535, 1, 65536, 0, 65537, 40000, 3, 65536, 70000, 30000, 65535, 0, 2]
+        for i, l in enumerate(lens if tier == "quick" else lens * 2):
+            ops.append(f"cins {i} {hx(cache_value(i + 7, l))}")
+            ops.append(f"cget {max(0, i - 1)}")
+        for k in range(len(lens)):
+            ops.append(f"cget {k}")
     return ops
 
 
